@@ -35,6 +35,8 @@ def gen_cases(ctx, n=None):
             spec["theta"]["s"] = 0.0
         elif spec["theta"]["s"] == 0.0:
             spec["theta"]["s"] = 0.75 * (1.0 if spec["data_unit"] == "km/s" else 1000.0)
+        if k % 2 == 0:  # uncertainties handed over in another unit than the velocities
+            spec["err_unit"] = "m/s" if spec["data_unit"] == "km/s" else "km/s"
         spec["n_samples"] = [1, 4, 5][int(rng.integers(0, 3))]
         spec["pt_seed"] = int(rng.integers(0, 2**31))
         out.append(spec)
@@ -90,7 +92,10 @@ def observe(spec):
         fn = pytensor.function([p[nm] for nm in rv_names], outs, on_unused_input="ignore")
     # which input row the initial point is
     P_init = float((np.asarray(init["P"]) * prior_unit(prior, "P")).to_value(u.day))
-    row = int(np.argmin(np.abs(Ps - P_init)))
+    # the input row the initial point was built from: periods may tie, so the row is identified by period AND eccentricity
+    e_init = float(np.asarray(init["e"]))
+    e_all = np.asarray(smp["e"].value, float)
+    row = int(np.argmin(np.abs(Ps - P_init) / Ps + np.abs(e_all - e_init)))
     obs = dict(init={k: float(v) for k, v in init.items()}, row=row, Ps=Ps.tolist(), points=[], prior=prior, smp=smp)
     # two parameter points: the initial point, and a perturbed one; physical values in kernel units
     for which in ("init", "other"):
